@@ -101,9 +101,18 @@ def _run_job(job):
 
 
 def run_jobs(progpath, jobs, nproc=16):
+    """generator of job results (unordered); closing the generator terminates the workers"""
     if nproc <= 1 or len(jobs) <= 1:
         _init(progpath)
-        return [run_job(j) for j in jobs]
+        for j in jobs:
+            yield run_job(j)
+        return
     ctx = mp.get_context('fork')
-    with ctx.Pool(min(nproc, len(jobs)), initializer=_init, initargs=(progpath,), maxtasksperchild=8) as pool:
-        return list(pool.imap_unordered(run_job, jobs, chunksize=1))
+    pool = ctx.Pool(min(nproc, len(jobs)), initializer=_init, initargs=(progpath,), maxtasksperchild=8)
+    try:
+        for r in pool.imap_unordered(run_job, jobs, chunksize=1):
+            yield r
+        pool.close()
+    finally:
+        pool.terminate()
+        pool.join()
